@@ -88,6 +88,25 @@ structure Policy where
   named : Bool                      -- oci: exact registry scope instead of `*`; blob: a named statement instead of the global one
   deriving DecidableEq, Repr, FromJson, ToJson
 
+/-- how the trusted identities of the statement are listed when they are exact subjects: plugin-defined identities
+(another `<kind>:<value>`, left to verification plugins) may stand anywhere in the list (must not matter) -/
+inductive IdentityList | plain | foreignBefore | foreignAfter | foreignBetween
+  deriving DecidableEq, Repr, FromJson, ToJson
+
+/-- oci: another signature on the same artifact, made through SignOCI by a signer the policy does NOT trust
+(must not matter: the trusted signature is found whatever is listed first and whatever its envelope format) -/
+inductive OtherSignature | none | strangerBeforeOtherFormat | strangerBeforeSameFormat | strangerAfterOtherFormat | strangerAfterSameFormat
+  deriving DecidableEq, Repr, FromJson, ToJson
+
+/-- signing scheme (only an envelope plugin chooses it; everybody else signs under notary.x509) -/
+inductive Scheme | x509 | signingAuthority
+  deriving DecidableEq, Repr, FromJson, ToJson
+
+/-- signingAuthority envelope plugin: validity of the signing certificate it mints at signing time, relative to the
+(truncated) signing time - the bounds are inclusive (must not matter) -/
+inductive CertWindow | wide | notBeforeIsSigningTime | notAfterIsSigningTime | oneSecond
+  deriving DecidableEq, Repr, FromJson, ToJson
+
 /-- other calls of the library in flight while this round trip runs (must not matter) -/
 inductive InFlight
   | alone          -- nothing else runs
@@ -192,6 +211,10 @@ structure Input where
   timeZone : String           -- time.Local of the signing process (IANA name; must not matter: expiry is an instant)
   policy : Policy             -- shape of the applicable trust policy statement
   inFlight : InFlight         -- concurrency around this round trip (must not matter)
+  identities : IdentityList   -- exact identities: where plugin-defined identities stand in the list
+  otherSignature : OtherSignature  -- oci: a stranger's signature on the same artifact
+  scheme : Scheme             -- envelope plugin only: the signing scheme
+  certWindow : CertWindow     -- signingAuthority envelope plugin: validity of the certificate minted at signing time
   deriving Repr, FromJson, ToJson
 
 structure Obs where
@@ -584,8 +607,11 @@ def noSignature : Obs :=
 /-- verifier.verifyTimestamp for a signature made WITHOUT a timestamper (what the signing API of this model
 produces) by certificates that are still valid: timestamp verification is performed - and fails, there is no
 countersignature - exactly when the statement names a tsa store and does not postpone it until the chain expired -/
+def effectiveScheme (i : Input) : Scheme := if i.signer == .pluginEnvelope then i.scheme else .x509
+
 def timestampDemanded (i : Input) : Bool :=
-  i.policy.tsaStore && i.policy.verifyTimestamp != .afterCertExpiry
+  -- timestamps belong to notary.x509; under signingAuthority the authentic signing time is the signed one
+  effectiveScheme i == .x509 && i.policy.tsaStore && i.policy.verifyTimestamp != .afterCertExpiry
 
 /-- sign, then verify `lagSec` seconds after the signing time -/
 def runWith (C : Crypto) (key : C.Key) (trust : C.Pub → Bool) (nowNs : Int) (i : Input) : Obs :=
